@@ -97,3 +97,14 @@ Print Assumptions C07_tie_stream_reader_methods.
 Theorem C07_tie_reader_class_attrs : Gen_Codec.reader_class_attrs = [] /\ Gen_Codec.stream_reader_class_attrs = [].
 Proof. exact reader_class_attrs_tie. Qed.
 Print Assumptions C07_tie_reader_class_attrs.
+
+From Coq Require Import String.
+(* the PyTorch and TensorFlow bodies read their blocks through unpack_torch / unpack_tensorflow: both are the NumPy block read
+   (the modelled "buffer is too small" check) followed by a conversion, tied here so that an edit of either re-opens C07 *)
+Require Import C08_GenTie.
+Theorem C07_tie_tensor_readers : (Gen_C08.tensor_readers, Gen_C08.fn_unpack_torch, Gen_C08.fn_unpack_tensorflow) =
+  ([ "numpy:unpack_numpy"; "torch:unpack_torch"; "tensorflow:unpack_tensorflow" ],
+   [ "import torch"; "arr = self.unpack_numpy(s, shape)"; "return torch.from_numpy(arr)" ],
+   [ "import tensorflow as tf"; "arr = self.unpack_numpy(s, shape)"; "return tf.constant(arr)" ])%string.
+Proof. exact C08_GenTie.read_source_tie. Qed.
+Print Assumptions C07_tie_tensor_readers.
